@@ -13,7 +13,11 @@ CONFIG = {
                 "repeated, proto3 optional, every supported scalar kind, well-known and j5 types, validate / list / j5 annotations "
                 "consistent with the field, enum option info + info fields, psm markers, any-membership, comments) -> "
                 "SchemaSetFromFiles -> structure.APIFromImage -> (optionally through the wire) -> PackageSetFromSourceAPI -> "
-                "ToJ5Root again. Non-trivial = a descriptor set that reflects and exports; distinct by the exported form.",
+                "ToJ5Root again. Every 4th op is an `import` op: the exported API with ONE mutation outside the export image "
+                "(inline object / oneof / enum, unset field or root type, absent items / item_schema / property schema, unknown "
+                "integer or float format, dangling reference, deleted schema, schema oneof not set, renamed object, entity join) "
+                "-> PackageSetFromSourceAPI; no oracle, it validates the importer model's error and panic arms. "
+                "Non-trivial = a descriptor set that reflects and exports; distinct by the exported form.",
     }],
     "trusted_base": [
         "Lean 4.33.0 kernel; axioms propext, Classical.choice, Quot.sound",
